@@ -1,0 +1,47 @@
+//go:build verif
+
+package process
+
+import "sync/atomic"
+
+// Yield sites inside Local, in program order (see verifYield calls in local.go).
+const (
+	VerifSiteStoreBeforeAddExitHook       = 1 // Store: after Unlock, before AddExitHook
+	VerifSiteLoadOrStoreBeforeLock        = 2 // LoadOrStore: after RUnlock, before Lock
+	VerifSiteLoadOrStoreBeforeDo          = 3 // LoadOrStore: after the first Unlock, before fn.Do()
+	VerifSiteLoadOrStoreAfterDo           = 4 // LoadOrStore: after fn.Do(), before the second Lock
+	VerifSiteLoadOrStoreBeforeAddExitHook = 5 // LoadOrStore: after the last Unlock, before AddExitHook
+)
+
+var verifYieldHook atomic.Pointer[func(site int, obj any)]
+
+// VerifSetYield installs (or, with nil, removes) the function called at every yield site of
+// Local. obj identifies the lazy initialiser at sites 3 and 4 (nil elsewhere). Built only with
+// the "verif" tag; verification harnesses use it to interleave goroutines deterministically.
+func VerifSetYield(f func(site int, obj any)) {
+	if f == nil {
+		verifYieldHook.Store(nil)
+		return
+	}
+	verifYieldHook.Store(&f)
+}
+
+func verifYield(site int, obj any) {
+	if f := verifYieldHook.Load(); f != nil {
+		(*f)(site, obj)
+	}
+}
+
+// VerifSizes returns len(eager), len(lazy), len(storeHooks).
+func (l *Local[T]) VerifSizes() (eager, lazy, storeHooks int) {
+	l.mu.RLock()
+	defer l.mu.RUnlock()
+	return len(l.eager), len(l.lazy), len(l.storeHooks)
+}
+
+// VerifExitHooks returns the number of exit hooks currently registered on the process.
+func (p *Process) VerifExitHooks() int {
+	p.mu.RLock()
+	defer p.mu.RUnlock()
+	return len(p.exitHooks)
+}
